@@ -142,3 +142,58 @@ Check C06_restarts_timestampsdirect.
 Print Assumptions C06_restarts_timestampsdirect.
 Check C06_restarts_timestampsdirect_keep.
 Print Assumptions C06_restarts_timestampsdirect_keep.
+
+(* ------------------------------------------------------------------ sequences of runs WITH a cleanup strategy (Numbers naming; proofs:
+   Flw/NumCleanupRestart*.v) *)
+Require Import FL.Flw.CleanupFacts FL.Flw.NumCleanupNames FL.Flw.NumCleanupStep FL.Flw.NumCleanupRun FL.Flw.NumCleanup
+  FL.Flw.NumCleanupKillDir FL.Flw.NumCleanupKillRestart FL.Flw.NumCleanupRestart FL.Flw.NumCleanupRestartTheorems FL.Flw.NumCleanupRestartVar FL.Flw.NumCleanupRestartVarTheorems.
+Local Open Scope nat_scope.
+(* every run with the same strategy (limits n, m), own criterion / capacity / append flag / history: the directory is in the
+   shape a single run leaves - rCURRENT, the newest n closed files plain, the next m as archives of exactly what was closed
+   under that number, nothing else - and holds a SUFFIX of what all runs wrote *)
+Theorem C06_restarts_numbers_cleanup sp k n m t0 off rs :
+  klim k = Some (n, m) -> sfx_ok sp ->
+  (N.of_nat (length (runs_ops rs)) <= u32_max)%N ->
+  Forall (fun r => c_spec (fst r) = sp /\ (exists crit, numkcfg (fst r) crit k) /\ Forall basic_op (snd r)) rs ->
+  let f := wfs (s_w (fst (run (sys0 t0 off) (runs_ops rs)))) in
+  (names f = [] /\ runs_written rs = [])
+  \/ exists closed cur,
+       (forall c, c_spec c = sp -> kreader_view c f closed cur (length closed - (n + m)) (length closed - n))
+       /\ concat closed ++ cur = runs_written rs.
+Proof. exact (numbers_cleanup_restarts sp k n m t0 off rs). Qed.
+
+(* a later run never changes the content found under a number: what a reader finds under number i after rs1 is still found
+   there after rs1 ++ rs2 (possibly as an archive now), or the cleanup has removed it *)
+Theorem C06_restarts_numbers_cleanup_keep sp k n m t0 off rs1 rs2 c i d :
+  klim k = Some (n, m) -> sfx_ok sp ->
+  (N.of_nat (length (runs_ops (rs1 ++ rs2))) <= u32_max)%N ->
+  Forall (fun r => c_spec (fst r) = sp /\ (exists crit, numkcfg (fst r) crit k) /\ Forall basic_op (snd r)) (rs1 ++ rs2) ->
+  c_spec c = sp ->
+  let f1 := wfs (s_w (fst (run (sys0 t0 off) (runs_ops rs1)))) in
+  let f2 := wfs (s_w (fst (run (sys0 t0 off) (runs_ops (rs1 ++ rs2))))) in
+  reads_at c f1 i d ->
+  (reads_at c f2 i d /\ (lookup f1 (rname c i) = None -> lookup f2 (rname c i) = None))
+  \/ (lookup f2 (rname c i) = None /\ lookup f2 (gname c i) = None).
+Proof. exact (numbers_cleanup_restarts_keep_files sp k n m t0 off rs1 rs2 c i d). Qed.
+
+(* each run with its own strategy, as long as every strategy keeps at least A >= 1 files (B of them plain) or is Never
+   (with a strategy that keeps nothing the numbering restarts at 0 and a number is reused: counterexample in
+   Flw/NumCleanupRestartEx.v reused_number_counterexample) *)
+Theorem C06_restarts_numbers_cleanup_varying sp A B t0 off rs :
+  1 <= A -> sfx_ok sp ->
+  (N.of_nat (length (runs_ops rs)) <= u32_max)%N ->
+  Forall (fun r => c_spec (fst r) = sp /\ (exists crit k, numkcfg (fst r) crit k /\ kok A B k) /\ Forall basic_op (snd r)) rs ->
+  let f := wfs (s_w (fst (run (sys0 t0 off) (runs_ops rs)))) in
+  (names f = [] /\ runs_written rs = [])
+  \/ exists closed cur lo mid,
+       (forall c, c_spec c = sp -> kreader_view c f closed cur lo mid)
+       /\ concat closed ++ cur = runs_written rs
+       /\ Nat.min (length closed) A <= length closed - lo /\ Nat.min (length closed) B <= length closed - mid
+       /\ (forall rs0 c ops crit k n m, rs = rs0 ++ [(c, ops)] -> existsb is_wr ops = true -> numkcfg c crit k ->
+             klim k = Some (n, m) -> length closed - mid <= n /\ length closed - lo <= n + m).
+Proof. exact (numbers_cleanup_restarts_varying sp A B t0 off rs). Qed.
+
+Check C06_restarts_numbers_cleanup. Check C06_restarts_numbers_cleanup_keep. Check C06_restarts_numbers_cleanup_varying.
+Print Assumptions C06_restarts_numbers_cleanup.
+Print Assumptions C06_restarts_numbers_cleanup_keep.
+Print Assumptions C06_restarts_numbers_cleanup_varying.
